@@ -24,7 +24,9 @@ LEVEL = "exploration"
 RULE = ("kinds = every catalogue record with route 'unsolicited' (incoming) or 'app' (outgoing); for each generated stanza / "
         "constructor-argument draw the complete grid of 32 configurations (groups/media/privacy/profiles on/off x encryption "
         "layers present/absent) is executed. Outgoing message entities are only checked without the encryption layers (with them "
-        "they continue into C03). Non-trivial = the stanza tag is claimed by two or more layers (iq, message, notification) or the "
+        "they continue into C03). Two-step kinds: a text payload that carries a sender key next to its content, and 1-3 receipts "
+        "(delivery / read / played) for a message this client sent itself before (one-to-one and group; with the encryption layers "
+        "the key and group-info requests of that send are answered by a simulated contact). Non-trivial = the stanza tag is claimed by two or more layers (iq, message, notification) or the "
         "configuration is not all-on; every (draw, configuration) pair counts as one evaluation, distinct by construction of the "
         "grid and de-duplicated on the draw by canonical JSON.")
 ASSUMPTIONS = [
@@ -118,6 +120,81 @@ def run_sender_key_case(case, out):
     return out
 
 
+# ---- receipts for a message this client sent itself: with the encryption layers the sent message is remembered (for retries), and the
+# receipts of the recipient(s) must still reach the application, one entity each
+OWN_GROUP = "4915100000021-1500000001@g.us"
+OWN_MEMBERS = ["4915100000022@s.whatsapp.net", "4915100000023@s.whatsapp.net"]
+
+
+def run_own_receipt_case(case, out):
+    from yowsup.layers.protocol_messages.protocolentities import TextMessageProtocolEntity
+    from ..kit import peerkeys
+    configs = case.get("configs") or ALL_CONFIGS
+    group = bool(case["group"])
+    out.label("in", "receipt_for_own_message:" + ("group" if group else "direct"))
+    evals = nt = 0
+    for cfg in configs:
+        flags, axolotl = cfg[:4], bool(cfg[4])
+        single = dict(case, configs=[cfg])
+        rig = ProtoRig(flags, axolotl)
+        try:
+            to = OWN_GROUP if group else OWN_MEMBERS[0]
+            ent = TextMessageProtocolEntity(case["body"], to=to)
+            try:
+                rig.send(ent)
+                for _ in range(4):
+                    reqs = [n for n in rig.bottom.sent if n.tag == "iq" and n["type"] == "get" and not getattr(n, "_answered", False)]
+                    if not reqs:
+                        break
+                    for req in reqs:
+                        req._answered = True
+                        if req["xmlns"] == "encrypt":
+                            jids = [u["jid"] for u in req.getChild("key").getAllChildren()]
+                            rig.inject(T.to_node(peerkeys.keys_result(req["id"], jids)))
+                        elif req["xmlns"] == "w:g2":
+                            rig.inject(T.to_node(peerkeys.group_info_result(req["id"], req["to"], ["4915100000021@s.whatsapp.net"] + OWN_MEMBERS)))
+            except Exception as e:
+                out.fail("down", "down:own_message:raises:%s" % type(e).__name__, {"error": repr(e)[:300], "config": cfg}, case=single)
+                return out
+            left = [n for n in rig.bottom.sent if n.tag == "message" and n["id"] == ent.getId()]
+            if len(left) != 1:
+                out.fail("down", "down:own_message:%s" % ("not_sent" if not left else "sent_%d_times" % len(left)), {"config": cfg}, case=single)
+                return out
+            for k, r in enumerate(case["receipts"]):
+                attrs = {"id": ent.getId(), "t": r["t"]}
+                if r.get("type"):
+                    attrs["type"] = r["type"]
+                if group:
+                    attrs["from"] = OWN_GROUP
+                    attrs["participant"] = OWN_MEMBERS[r["who"] % len(OWN_MEMBERS)]
+                else:
+                    attrs["from"] = OWN_MEMBERS[0]
+                before = len(rig.top.got)
+                try:
+                    rig.inject(T.to_node(("receipt", attrs, None)))
+                except Exception as e:
+                    out.fail("up", "up:receipt_for_own_message:raises:%s" % type(e).__name__, {"error": repr(e)[:300], "config": cfg}, case=single)
+                    return out
+                got = [e for e in rig.top.got[before:]]
+                recs = [e for e in got if getattr(e, "getTag", lambda: None)() == "receipt"]
+                if len(recs) != 1 or len(got) != 1:
+                    out.fail("up", "up:receipt_for_own_message:%s" % ("not_delivered" if not recs else "delivered_%d_times" % len(recs)),
+                             {"config": cfg, "receipt": k, "attrs": attrs, "got": [type(g).__name__ for g in got]}, case=single)
+                    return out
+                e = recs[0]
+                if e.getId() != attrs["id"] or e.getFrom() != attrs["from"] or e.getType() != attrs.get("type") \
+                        or e.getParticipant() != attrs.get("participant"):
+                    out.fail("up", "up:receipt_for_own_message:fields_differ", {"config": cfg, "attrs": attrs}, case=single)
+                    return out
+        finally:
+            rig.close()
+        evals += 1
+        nt += 1
+    out.evals = max(1, evals)
+    out.nontrivial_n = nt
+    return out
+
+
 def module_on(rec, cfg):
     if rec.module in FLAG_NAMES:
         return cfg[FLAG_NAMES.index(rec.module)]
@@ -128,6 +205,8 @@ def run_case(case):
     out = Outcome()
     if case["sub"] == "in_sender_key":
         return run_sender_key_case(case, out)
+    if case["sub"] == "in_own_receipt":
+        return run_own_receipt_case(case, out)
     rec = E.by_name(case["name"])
     cls = rec.load()
     configs = case.get("configs") or ALL_CONFIGS
@@ -234,6 +313,11 @@ def plan(tier):
         strategies.append(("in_sender_key:" + kind,
                            S.shape_strategy(sender_key_shape(kind)).map(lambda t, _k=kind: {"sub": "in_sender_key", "kind": _k,
                                                                                             "tree": S.tree_to_json(t)}), n))
+    receipt = st.fixed_dictionaries({"t": S.TS.strategy, "type": st.sampled_from([None, None, "read", "played"]), "who": st.integers(0, 3)})
+    for group in (False, True):
+        strategies.append(("in_own_receipt:" + ("group" if group else "direct"),
+                           st.builds(lambda body, rs, _g=group: {"sub": "in_own_receipt", "group": _g, "body": body, "receipts": rs},
+                                     S.TEXT.strategy, st.lists(receipt, min_size=1, max_size=3)), n))
     return {
         "shards": 16,
         "enumerations": [],
